@@ -83,6 +83,11 @@ CHECKS['C19'] = ('deviation-bounded space (<=3 of 10 slots) of abstract peptides
                  'replacement / product for every size 1..n, None, n+1, through function and method, compared element by '
                  'element with itertools over the (residue, own modifications) units wrapped in the unchanged prefix and '
                  'suffix', 'DESIGN.md section 4 / C19')
+CHECKS['C18'] = ('deviation-bounded space (<=3 of 11 slots incl. unknown-position, interval, labile, static with residue and '
+                 'N-Term/C-Term targets, isotope labels, charge/adducts) x include_plus x precision 3..8: output parses, '
+                 'same residues, only numeric modifications, neutral mass preserved within (#shifts) x 0.5e-precision, '
+                 'shifts exactly on the residues/termini modified in the explicit form, unmodified input unchanged',
+                 'DESIGN.md section 4 / C18')
 NOT_APPLICABLE = {}
 
 
